@@ -30,6 +30,23 @@ def canon(x):
     return repr(x)
 
 
+def shape(x):
+    """Shape-preserving JSON form of a value that came back from asynq: tuples are marked."""
+    if isinstance(x, tuple):
+        return {"$t": [shape(i) for i in x]}
+    if isinstance(x, list):
+        return [shape(i) for i in x]
+    if isinstance(x, dict):
+        return {str(k): shape(v) for k, v in x.items()}
+    if x is None or isinstance(x, (bool, int, float, str)):
+        return x
+    return {"$obj": repr(x)}
+
+
+def digest(x):
+    return hashlib.sha1(json.dumps(x, sort_keys=True).encode()).hexdigest()[:12]
+
+
 def jhash(case):
     return hashlib.sha1(json.dumps(canon(case), sort_keys=True).encode()).hexdigest()[:16]
 
@@ -40,13 +57,14 @@ def derive_seed(*parts):
 
 
 class Sub(object):
-    def __init__(self, name, check, strategy=None, enumerate=None, examples=None, replay_only=False, weight=1.0):
+    def __init__(self, name, check, strategy=None, enumerate=None, examples=None, replay_only=False, reduce=None):
         self.name = name
         self.check = check
         self.strategy = strategy      # callable(tier) -> hypothesis strategy
         self.enumerate = enumerate    # callable(tier) -> iterable of cases
         self.examples = examples or {"quick": 300, "thorough": 5000}
         self.replay_only = replay_only
+        self.reduce = reduce          # callable(case) -> iterable of smaller candidate cases
 
 
 class Ctx(object):
@@ -184,6 +202,8 @@ def run_sub(ctx, sub, regress_cases=()):
             # the last failing execution is the shrunk one
             case, viol = box["case"], box["viol"]
             sig0 = viol[0][0]
+            if sub.reduce is not None:
+                case, viol = greedy_reduce(ctx, sub, case, viol, sig0)
             # Hypothesis shrinks towards *any* failure; record every signature of the final case
             for sig, msg in viol:
                 if sig not in seen:
@@ -194,6 +214,29 @@ def run_sub(ctx, sub, regress_cases=()):
             ctx.notes.append("flaky: %s" % e)
             raise
         break
+
+
+def greedy_reduce(ctx, sub, case, viol, sig, budget=3000):
+    """keep any strictly smaller candidate that still violates the same clause"""
+    import copy
+    spent = 0
+    progress = True
+    while progress and spent < budget:
+        progress = False
+        for cand in sub.reduce(case):
+            spent += 1
+            if spent >= budget:
+                break
+            try:
+                ctx.begin(cand)
+                v2 = sub.check(cand, ctx)
+            except Exception:
+                continue      # not a well-formed program any more
+            if any(s == sig for s, m in v2):
+                case, viol = cand, [(s, m) for s, m in v2]
+                progress = True
+                break
+    return case, viol
 
 
 def regress_inputs(prop, sub_name):
